@@ -1,18 +1,18 @@
 // C11 — rotations and slot sums follow the Galois algebra; advertised Galois-key lists suffice.
 //
-//   algebra/*   GaloisElement / ModInvGaloisElement / SolveDiscreteLogGaloisElement on the whole group
-//   rotate/*    every k in [-slots-1, slots+1] and extreme k, plain / New / hoisted / lazy variants, keys for
-//               exactly GaloisElement(k); conjugation / row swap with exactly the order-two element
-//   sums/*      InnerSum, RotateAndAdd, PartialTracesSum, InnerFunction, Replicate for all (batch, n),
-//               keys from exactly the advertised list
-//   average/*   ckks.Evaluator.Average for every batch size
-//   trace/*     Trace / TraceNew for every depth
-//   latekeys/*  keys inserted into the key set after the evaluator was built (no / another / the order-two / the same
-//               key at construction), used through plain, hoisted, lazy and shallow-copy entry points
-//   userfn/*    BGV InnerFunction with a user function that multiplies (slot-wise products of groups)
-//   automorphism/rlwe/*, rlwesums/rlwe/*  scheme-less RLWE with NTTFlag false and true: every element of the Galois
-//               group, PartialTracesSum / Replicate / InnerFunction(user function) / Trace in the coefficient domain
-//   packing/rlwe/*  ring-packing Expand and Pack with keys from exactly GaloisElementsForExpand / ForPack
+//	algebra/*   GaloisElement / ModInvGaloisElement / SolveDiscreteLogGaloisElement on the whole group
+//	rotate/*    every k in [-slots-1, slots+1] and extreme k, plain / New / hoisted / lazy variants, keys for
+//	            exactly GaloisElement(k); conjugation / row swap with exactly the order-two element
+//	sums/*      InnerSum, RotateAndAdd, PartialTracesSum, InnerFunction, Replicate for all (batch, n),
+//	            keys from exactly the advertised list
+//	average/*   ckks.Evaluator.Average for every batch size
+//	trace/*     Trace / TraceNew for every depth
+//	latekeys/*  keys inserted into the key set after the evaluator was built (no / another / the order-two / the same
+//	            key at construction), used through plain, hoisted, lazy and shallow-copy entry points
+//	userfn/*    BGV InnerFunction with a user function that multiplies (slot-wise products of groups)
+//	automorphism/rlwe/*, rlwesums/rlwe/*  scheme-less RLWE with NTTFlag false and true: every element of the Galois
+//	            group, PartialTracesSum / Replicate / InnerFunction(user function) / Trace in the coefficient domain
+//	packing/rlwe/*  ring-packing Expand and Pack with keys from exactly GaloisElementsForExpand / ForPack
 package main
 
 import (
@@ -106,6 +106,40 @@ func scenarios(tier string) []engine.Scenario {
 			scs = append(scs, userFunctionScenario(w))
 		}
 	}
+	// "many terms": counts of Hamming weight >= 9 with 61-bit auxiliary (and ciphertext) primes
+	{
+		mt := func(logN int) []pair {
+			h := 1 << (logN - 1)
+			return []pair{{1, h - 1}, {1, h/2 - 1}, {1, h - h/4 - 1}, {2, h/2 - 1}, {1, h}}
+		}
+		logNs := []int{12} // 2047 = 2^11-1 fits the 2048 slots of a row: 10 lazily accumulated terms
+		rws := []*rw{newRWBig(10, 1, true), newRWBig(10, 2, true), newRWBig(10, 1, false), newRW(10, 1, true)}
+		rwN := []int{255, 511, 1023, 767, 2047, 4095}
+		if tier == "thorough" {
+			logNs = []int{11, 12, 13}
+			rws = append(rws, newRWBig(11, 1, true), newRWBig(12, 2, true), newRWBig(12, 1, false))
+			rwN = append(rwN, 3071, 8191)
+		}
+		for _, logN := range logNs {
+			ws := []*world{
+				ckksWorld(cklib.Cfg{Name: fmt.Sprintf("std-logN%d-P1", logN), RingType: ring.Standard, LogN: logN, LogQ: []int{55, 45, 45}, LogP: []int{61}, LogScale: 45, LogSlots: -1}),
+				bgvWorld(logN, 1, 65537, 0),
+			}
+			if logN == 12 {
+				ws = append(ws, ckksWorld(cklib.Cfg{Name: "ci-logN11-P2", RingType: ring.ConjugateInvariant, LogN: 11, LogQ: []int{55, 45, 45}, LogP: []int{61, 61}, LogScale: 45, LogSlots: -1}))
+			}
+			for _, w := range ws {
+				for mi, m := range sumMethods {
+					if m == "RotateAndAdd" || m == "PartialTracesSum" || m == "Replicate" {
+						scs = append(scs, sumsScenarioOn(w, mi, mt(w.logN+map[bool]int{true: 1, false: 0}[w.rt == ring.ConjugateInvariant])))
+					}
+				}
+			}
+		}
+		for _, w := range rws {
+			scs = append(scs, rwManyTermsScenario(w, rwN))
+		}
+	}
 	for _, w := range rwWorlds(tier) {
 		scs = append(scs, rwAutoScenario(w), rwSumsScenario(w))
 		if w.logN <= 6 {
@@ -147,7 +181,8 @@ func main() {
 				"np=3", "rotate=late-keys", "late-keys=none", "late-keys=other-rotation", "late-keys=order-two", "late-keys=same-then-more",
 				"packing=Expand", "packing=Pack-zeroing", "packing=Pack-clean", "rlwe-auto=ntt-false", "rlwe-auto=ntt-true", "rlwe-auto=hoisted",
 				"rlwe-sum=PartialTracesSum-ntt-false", "rlwe-sum=Replicate-ntt-false", "rlwe-sum=InnerFunction-user-ntt-false", "rlwe-sum=Trace-ntt-false", "rlwe-sum=Trace-ntt-true",
-				"trace=skipped-small-plaintext-ring", "bgv-plaintext-ring=smaller"}
+				"trace=skipped-small-plaintext-ring", "bgv-plaintext-ring=smaller",
+				"many-terms=rlwe-hw9", "many-terms=rlwe-hw10", "many-terms=rlwe-hw11", "many-terms=rlwe-hw12", "many-terms=ckks-hw11", "many-terms=bgv-hw11", "many-terms=ckks-hw10"}
 			for _, m := range sumMethods {
 				e = append(e, "sum="+m)
 			}
